@@ -22,9 +22,10 @@ def main():
     prop, src, name = sys.argv[1], sys.argv[2], sys.argv[3]
     dst = os.path.join(ROOT, "seeded", name)
     os.makedirs(dst, exist_ok=True)
-    for f in os.listdir(src):
-        if os.path.isfile(os.path.join(src, f)):
-            shutil.copy(os.path.join(src, f), os.path.join(dst, f))
+    if os.path.realpath(src) != os.path.realpath(dst):
+        for f in os.listdir(src):
+            if os.path.isfile(os.path.join(src, f)):
+                shutil.copy(os.path.join(src, f), os.path.join(dst, f))
     meta = json.load(open(os.path.join(dst, "meta.json")))
     if not os.path.isdir(WT):
         sh(["git", "-C", "/repo", "worktree", "add", "-q", "--detach", WT, "HEAD"])
